@@ -171,7 +171,9 @@ fn spin_script(k: SpinKind) -> &'static str {
 pub const PROBES: &[&str] = &[
     "f = ||\n  g = |n| 'v{n}w'\n  'a{g(1)}b{g(2)}c'\nf()\n",
     "f = ||\n  l = [1, (2, 3), {k: [4, 5]}]\n  l.push((6, [7]))\n  '{l}'\nf()\n",
-    "f = ||\n  d = |n| if n == 0 then 0 else 1 + d(n - 1)\n  d(150)\nf()\n",
+    // (the function is passed to itself: a closure that captures itself is a reference cycle
+    // that koto's reference counting never frees, which would leak in every probe run)
+    "f = ||\n  d = |g, n| if n == 0 then 0 else 1 + g(g, n - 1)\n  d(d, 150)\nf()\n",
     "f = ||\n  g = |n|\n    for i in 0..n\n      yield i * 2\n  g(5).each(|x| x + 1).keep(|x| x > 2).to_tuple()\nf()\n",
     "f = ||\n  r = []\n  x = try\n    r.push(1)\n    throw 'boom'\n  catch e\n    r.push(e)\n    2\n  finally\n    r.push(3)\n    4\n  '{x} {r}'\nf()\n",
     "f = ||\n  o =\n    @+: |other| 10 + other\n    @display: || 'obj'\n  '{o + 5} {o}'\nf()\n",
